@@ -29,7 +29,11 @@ RULE = ("cases = (max_packet_size, buffer_size) x consumer pattern x response de
         "endpoints (OUT packets of 0 .. 3*max_packet_size+9 bytes, i.e. also LONGER than this endpoint's max packet "
         "size, CRC-valid or corrupted; 8-byte SETUP packets under another and under the endpoint's own number) "
         "and ClearFeature(HALT); the response request comes 1, 2, 3 or 10 cycles after rx_complete "
-        "(HS / FS@12MHz / - / FS@60MHz interpacket delays); consumer: ready, stalled (buffer nearly full), random")
+        "(HS / FS@12MHz / - / FS@60MHz interpacket delays); consumer: ready, stalled (buffer nearly full), random; "
+        "plus `ping-edge` cases (configs + (8,15), every delay): a stalled consumer that reads exactly what the script asks, "
+        "the host brings the FIFO to max_packet_size-1 / max_packet_size / max_packet_size+1 (sometimes -2 or any number of) "
+        "free entries by its own count of accepted and read bytes, PINGs, and mostly follows with a max-size OUT; monitor rule "
+        "out-ping-ack-without-room: a PING is not ACKed when buffer - (accepted bytes - bytes read so far) < max_packet_size")
 ASSUMPTIONS = ["LegalHost (lean/LunaVerif/Lemmas/C13Host.lean, decidable acceptor Phase.step; the generated stimulus is "
                "checked against it cycle by cycle through the model driver's 7th output): in words the four items below, "
                "plus: no ClearFeature(HALT) for the endpoint inside its own OUT transaction; OUT and PING never decoded "
@@ -60,6 +64,11 @@ def gen_cases(tier, rng):
             for delay in DELAYS:
                 for _ in range(reps if mps < 64 else 1):
                     out.append({"mps": mps, "buffer": buf, "pattern": pattern, "delay": delay, "seed": rng.u64()})
+    # PING at chosen fill levels (appended after the older cases: their seeds do not move)
+    for mps, buf in CONFIGS + [(8, 15)]:
+        for delay in DELAYS:
+            for _ in range(1 if (tier == "quick" or mps >= 64) else 3):
+                out.append({"mps": mps, "buffer": buf, "pattern": "ping-edge", "delay": delay, "seed": rng.u64()})
     return out
 
 
@@ -74,6 +83,11 @@ class Host:
         self.drain = 0
 
     def rdy(self):
+        if self.pattern == "ping-edge":      # stalled consumer; reads only what the host script asks for
+            if self.drain > 0:
+                self.drain -= 1
+                return 1
+            return 0
         if self.pattern in ("stall", "overflow-witness"):
             if self.drain > 0:
                 self.drain -= 1
@@ -93,6 +107,17 @@ def script(mps, buf, pattern, delay, rng):
         return [{"t": "out", "n": mps}, {"t": "out", "n": 0}, {"t": "out", "n": 2}, {"t": "out", "n": 1}]
     if pattern == "overflow-witness":
         return [{"t": "out", "n": mps}, {"t": "out", "n": mps}, {"t": "out", "n": mps}, {"t": "drain"}]
+    if pattern == "ping-edge":
+        # bring the FIFO to a chosen amount of free space (around max_packet_size), PING, then a max-size packet
+        for _ in range(rng.range(5, 9)):
+            sp = rng.weighted([(4, mps - 1), (3, mps), (2, mps + 1), (1, mps - 2), (1, rng.range(0, buf))])
+            acts.append({"t": "fill", "space": min(buf, max(0, sp))})
+            acts.append({"t": "ping"})
+            if rng.chance(60):
+                acts.append({"t": "out", "n": mps, "tries": 1})
+            if rng.chance(20):
+                acts.append({"t": "ping"})
+        return acts
     for _ in range(rng.range(8, 20)):
         k = rng.weighted([(10, "out"), (2, "corrupt"), (2, "ping"), (1, "other"), (1, "clear"), (2, "repeat"),
                           (1, "otherlong"), (1, "setup")])
@@ -136,6 +161,8 @@ def simulate(desc):
             r = tuple(int(ctx.get(o)) for o in outs)
             stim.append(v)
             rows.append(r)
+            if stim_in is None and r[2] and v[12]:
+                cnt["rd"] += 1
             await ctx.tick("usb")
             return r
 
@@ -175,8 +202,39 @@ def simulate(desc):
             await idle(rng.range(3, 6))
             return r
 
-        acts = script(mps, buf, pattern, delay, rng)
         last_acked = None
+        cnt = {"acc": 0, "rd": 0}      # host bookkeeping: payload bytes of newly accepted packets / bytes read by the consumer
+
+        async def do_out(a):
+            nonlocal host_toggle, seq, last_acked
+            payload = [(seq + 13 * j) & 0xFF for j in range(a["n"])]
+            seq = (seq + 57) & 0xFF
+            tries = 0
+            while True:
+                tok[:] = [EP, 1, 0]
+                pid[0] = host_toggle
+                await idle(1, new=1)
+                await idle(rng.range(1, 3))
+                r = await data_packet(payload, not a.get("corrupt"), delay)
+                if r is None:
+                    log.append({"k": "corrupt", "payload": payload, "at": len(stim)})
+                    break
+                ack, nak = r[0], r[1]
+                log.append({"k": "out", "payload": payload, "toggle": host_toggle, "ack": ack, "nak": nak,
+                            "at": len(stim), "delay": delay})
+                if ack:
+                    host_toggle ^= 1
+                    last_acked = payload
+                    cnt["acc"] += len(payload)
+                    break
+                tries += 1
+                if tries > 6:
+                    h.drain = 2 * buf         # let the consumer make room, then try again
+                if tries > a.get("tries", 12):
+                    break
+                await idle(rng.range(4, 12))
+
+        acts = script(mps, buf, pattern, delay, rng)
         qi = 0
         while qi < len(acts) and len(stim) < 6000:
             a = acts[qi]
@@ -186,31 +244,25 @@ def simulate(desc):
                 h.drain = 3 * buf
                 await idle(3 * buf)
             elif a["t"] == "out":
-                payload = [(seq + 13 * j) & 0xFF for j in range(a["n"])]
-                seq = (seq + 57) & 0xFF
-                tries = 0
-                while True:
-                    tok[:] = [EP, 1, 0]
-                    pid[0] = host_toggle
-                    await idle(1, new=1)
-                    await idle(rng.range(1, 3))
-                    r = await data_packet(payload, not a.get("corrupt"), delay)
-                    if r is None:
-                        log.append({"k": "corrupt", "payload": payload, "at": len(stim)})
-                        break
-                    ack, nak = r[0], r[1]
-                    log.append({"k": "out", "payload": payload, "toggle": host_toggle, "ack": ack, "nak": nak,
-                                "at": len(stim), "delay": delay})
-                    if ack:
-                        host_toggle ^= 1
-                        last_acked = payload
-                        break
-                    tries += 1
-                    if tries > 6:
-                        h.drain = 2 * buf         # let the consumer make room, then try again
-                    if tries > 12:
-                        break
-                    await idle(rng.range(4, 12))
+                await do_out(a)
+            elif a["t"] == "fill":
+                # bring the FIFO to exactly a["space"] free entries: accepted bytes - bytes read, by the host's own count
+                target = buf - a["space"]
+                guard = 0
+                while cnt["acc"] - cnt["rd"] != target and guard < 8 and len(stim) < 6000:
+                    guard += 1
+                    fill = cnt["acc"] - cnt["rd"]
+                    if fill > target:
+                        k = fill - target
+                        for _ in range(4 * buf + 8):
+                            r = await cycle([0, 0, 0, 0, 0, 0, pid[0], tok[0], tok[1], tok[2], 0, 0, 1])
+                            k -= r[2]
+                            if k == 0:
+                                break
+                        await idle(2)
+                    else:
+                        await do_out({"t": "out", "n": min(mps, target - fill), "tries": 1})
+                        await idle(rng.range(3, 6))
             elif a["t"] == "repeat" and last_acked is not None:
                 # the host missed our ACK: same data, previous toggle
                 tok[:] = [EP, 1, 0]
@@ -311,12 +363,30 @@ def monitor(mps, buf, stim, rows):
     transfer_open = False
     prev_zlp_end = False
     dirty = False      # a non-empty packet with the expected toggle was written and then discarded since the last accepted one
+    accepted = 0       # payload bytes of the packets accepted so far (ACK with the expected toggle)
+    reads, n_rd = [], 0    # reads[t] = bytes the consumer has taken in cycles 0..t
+    for v, r in zip(stim, rows):
+        n_rd += int(bool(r[2] and v[12]))
+        reads.append(n_rd)
+    ping_fails = []
     for k, e in enumerate(log):
         if e.get("clear"):
             toggle = 0
             continue
         if e.get("ping"):
-            if e["ep"] == EP and e["isping"]: tags.add("ping ack" if e["ack"] else "ping nak")
+            if e["ep"] == EP and e["isping"]:
+                tags.add("ping ack" if e["ack"] else "ping nak")
+                # free entries by the host's own count, taken as LARGE as the trace allows: every byte read up to and
+                # including this cycle is counted as freed, a packet still being received or awaiting its response is
+                # not counted at all.  If even that is less than a whole packet, the PING must not be ACKed.
+                room = buf - (accepted - reads[e["at"]])
+                if room in (mps - 1, mps, mps + 1):
+                    tags.add("ping with max_packet_size%+d free" % (room - mps) if room != mps else "ping with max_packet_size free")
+                if e["ack"] and room < mps:
+                    ping_fails.append({"cycle": e["at"], "sig": "out-ping-ack-without-room", "what":
+                                       "PING for endpoint %d ACKed at cycle %d although at most %d of %d buffer entries are free "
+                                       "(%d bytes of accepted packets, %d read by the consumer): a max-size packet of %d bytes "
+                                       "cannot be taken" % (EP, e["at"], room, buf, accepted, reads[e["at"]], mps)})
             continue
         if e["ep"] != EP or not e["io"]:
             if len(e["payload"]) > mps:
@@ -344,6 +414,7 @@ def monitor(mps, buf, stim, rows):
             continue
         toggle ^= 1
         n = len(e["payload"])
+        accepted += n
         tags.add("ack zlp" if n == 0 else "ack max" if n == mps else "ack short")
         for j, b in enumerate(e["payload"]):
             first = int(j == 0 and not transfer_open)
@@ -409,6 +480,8 @@ def monitor(mps, buf, stim, rows):
         add({"cycle": len(rows) - 1, "sig": sig, "what":
              "the stream ended after %d bytes, but ACKed packet %s (response delay %d) was never delivered"
              % (len(transfers), log[k]["payload"], dly)})
+    if not fails:      # the host's count of the fill level is only meaningful when the ACKed packets really were delivered
+        fails.extend(ping_fails[:1])
     return fails, tags
 
 
